@@ -551,7 +551,7 @@ pub fn write_upvalue<T>(vm: &mut Vm<T>, bytecode: &[u8], instr_ptr: &mut usize) 
     }
 }
 
-fn _close_upvalues<T>(vm: &mut Vm<T>, top: *const Value) -> ExecutionResult {
+pub(crate) fn _close_upvalues<T>(vm: &mut Vm<T>, top: *const Value) -> ExecutionResult {
     if top.is_null() {
         return Err(ExecutionErrorPayload::invalid_argument(
             "Can't close upvalues on an empty stack",
